@@ -100,6 +100,9 @@ fn interpret(ops: &[WOp]) -> (Vec<Expect>, Model, Option<usize>, bool, Vec<usize
 }
 
 /// Symbol -> concrete op, given the symbolic state so far
+/// runs with a short source ending on a power-of-two edge: 11 exponents x 3 multiples x 4 announced sizes
+const N_EDGE_SRC: u64 = 132;
+
 struct Builder {
     ops: Vec<WOp>,
     next_f: usize,
@@ -228,15 +231,15 @@ impl Prop for C09 {
         "exploration"
     }
     fn rule(&self) -> String {
-        "run = one writer call sequence over a 19-symbol alphabet {start(fresh | duplicate | empty | 65536-byte | 65537-byte name), add(fresh | duplicate | 65537-byte name), append(to the most recently opened file from an exact | short | longer source; to the oldest open file; to an ended file; to a never-issued id), end(open | ended | never-issued id), flush, finalize}. ALL sequences of length 1..3 (quick) / 1..4 (thorough) are enumerated on the s0 build without layers; the remaining runs are seeded sequences of length 5..40 on all variants and layer sets with seeded piece sizes. A model interprets the sequence: which calls must be refused (duplicate or over-long name, file not open, anything after finalize, finalize with open files), what the archive described by the accepted calls is. Oracle: the library refuses exactly those calls; a short source is never Ok; afterwards the harness ends the open files and finalizes, and the archive must read back to the model that ignored the refused calls (listing, sizes, bytes, hashes), repair of it must give the same files and linear extraction must agree. After a short source the archive counts as poisoned: only no-panic is demanded. distinct_nontrivial = distinct (variant, layers, multiset of (symbol, outcome) pairs, final state) signatures.".into()
+        "run = one writer call sequence over a 19-symbol alphabet {start(fresh | duplicate | empty | 65536-byte | 65537-byte name), add(fresh | duplicate | 65537-byte name), append(to the most recently opened file from an exact | short | longer source; to the oldest open file; to an ended file; to a never-issued id), end(open | ended | never-issued id), flush, finalize}. ALL sequences of length 1..3 (quick) / 1..4 (thorough) are enumerated on the s0 build without layers; then 132 runs with ONE append whose source ends exactly on j x 2^e bytes (e = 12..22, j = 1..3; production constants, all layer sets) while 1 byte, half a unit, a unit or several units more were announced - the edge of whatever copy buffer lies on the path; the remaining runs are seeded sequences of length 5..40 on all variants and layer sets with seeded piece sizes. A model interprets the sequence: which calls must be refused (duplicate or over-long name, file not open, anything after finalize, finalize with open files), what the archive described by the accepted calls is. Oracle: the library refuses exactly those calls; a short source is never Ok; afterwards the harness ends the open files and finalizes, and the archive must read back to the model that ignored the refused calls (listing, sizes, bytes, hashes), repair of it must give the same files and linear extraction must agree. After a short source the archive counts as poisoned: only no-panic is demanded. distinct_nontrivial = distinct (variant, layers, multiset of (symbol, outcome) pairs, final state) signatures.".into()
     }
     fn assumptions(&self) -> Vec<String> {
         vec!["a source longer than announced is legal (the first `size` bytes are kept); flush after finalize is not a refused call".into()]
     }
     fn runs(&self, tier: Tier) -> u64 {
         match tier {
-            Tier::Quick => n_exh(3) + 2500,
-            Tier::Thorough => n_exh(4) + 100_000,
+            Tier::Quick => n_exh(3) + N_EDGE_SRC + 2500,
+            Tier::Thorough => n_exh(4) + N_EDGE_SRC + 100_000,
         }
     }
     fn make(&self, seed: u64, run: u64, tier: Tier) -> Case {
@@ -264,7 +267,24 @@ impl Prop for C09 {
             let cfg = ArcCfg { variant: "s0".into(), layers: 0, level: 0, recipients: 0, reader: 0, rng_seed: 0, key_seed: 0 };
             return Case::new("C09", cfg, b.ops);
         }
-        let mut rng = Rng::derive(seed, "C09", run, "gen");
+        if run < n_exh(exh) + N_EDGE_SRC {
+            // a short source that ends EXACTLY on a multiple of a power of two (4 KiB .. 4 MiB: whatever copy buffer
+            // the writer path uses, one of these is its edge), announced 1 byte / half a unit / one unit / several
+            // units longer; one such append, then the rest of a normal sequence
+            let k = run - n_exh(exh);
+            let (e, j, d) = (12 + k / 12, 1 + (k % 12) / 4, k % 4);
+            let unit = 1usize << e;
+            let have = j as usize * unit;
+            let short_by = [1, unit / 2, unit, 3 * unit + 5][d as usize];
+            let layers = (k % 4) as u8 ^ ((k / 4) % 4) as u8;
+            let cfg = ArcCfg { variant: "prodv".into(), layers, level: 1, recipients: usize::from(layers & 1 != 0), reader: 0, rng_seed: 11, key_seed: 11 };
+            b.push(0, None);
+            b.ops.push(WOp::Append { f: 0, data: Data::Period { n: have + short_by, p: 251 }, src: Src { sched: Sched::Full, short_by, extra: 0, stream: false } });
+            b.push(13, None);
+            b.push(5, None);
+            return Case::new("C09", cfg, b.ops);
+        }
+        let mut rng = Rng::derive(seed, "C09", run - N_EDGE_SRC, "gen");
         let variant = pick_variant(&mut rng, tier);
         let vc = consts_of(variant);
         let cfg = gen_cfg(&mut rng, variant, vc.hooks);
